@@ -278,6 +278,8 @@ def run(tier, seed):
         for raising in (False, True):
             items.append({'scenario': name, 'raising': raising, 'preempt': 2 if q else 3, 'max_paths': 6000 if q else 400000,
                           'budget_s': 28 if q else 800})
+    if tier == 'thorough':
+        common.fit_item_budgets(items, common.tier_budget(tier, 75, 1000))          # every scenario gets its turn
     results, skipped = report.run_pool(worker, items, budget_s=common.tier_budget(tier, 75, 1000))
     return report.finish(
         PROP, tier, seed, 'exploration', results, skipped,
